@@ -403,7 +403,7 @@ PROPS = {
         floors={"round trips": lambda a, t: a.counts.get("round_trips", 0) >= 20000, "generated trees": lambda a, t: a.counts.get("generated_trees", 0) >= 1000},
     ),
     "C12": dict(
-        jobs=lambda tier: both(8, None, stall_s=60),
+        jobs=lambda tier: both(8, None, stall_s=90, cap_mb=2048),
         eval_keys=["draws"],
         rule="random_code_with_size(n) for EVERY n in 1..80 and 235, 1034 x instruction lists {empty, one, full registry} x binding tables "
              "{none, one, three} x new-name probability {0, 0.001, 1}, D draws each: exact size, leaf kinds and membership; first draws are also "
